@@ -78,6 +78,7 @@ def run(chk):
         wire_cmds.append('rsablobn %s %d %d' % (name.encode('ascii').hex(), rng.choice([3, 65537]), rng.getrandbits(bits) | 1 | (1 << (bits - 1))))
     for _ in range(3):
         wire_cmds.append('dssblob %d %d %d %d' % (rng.getrandbits(1024) | (1 << 1023), rng.getrandbits(160) | (1 << 159), rng.getrandbits(1023) + 2, rng.getrandbits(1023) + 2))
+    wire_cmds += [sshgen.ec_blob_line(rng) for _ in range(12)]
     nwire = 0
     for cmd, b in zip(wire_cmds, common.run_model(wire_cmds)):
         evals += 1
@@ -96,7 +97,7 @@ def run(chk):
         if (kb != blob or got != want or kh != base64.b64encode(blob).decode('ascii')) and nwire < 3:
             nwire += 1
             chk.violation('host key "%s": key_bytes / fingerprints %s differ from the wire blob / its digests %s' % (
-                bytes.fromhex(cmd.split(' ')[1]).decode('ascii') if cmd.startswith('rsablobn') else 'ssh-dss', got, want),
+                bytes.fromhex(cmd.split(' ')[1]).decode('ascii') if cmd.startswith(('rsablobn', 'ecblob')) else 'ssh-dss', got, want),
                 {'cmd': cmd, 'blob': blob.hex(), 'impl': got, 'reference': want}, None, True)
         seen.add(got[0])
     chk.coverage['wire_host_keys'] = len(wire_cmds)
@@ -136,7 +137,7 @@ def run(chk):
                             'critical options and extensions (PROTOCOL.certkeys) encoded by the specification and parsed by the implementation: key_bytes = wire '
                             'blob, fingerprints and known_hosts = its digests / base64; non-trivial = distinct values')
     chk.sample({'example': kex[0][:160]})
-    chk.assumptions += ['MD5, SHA-1, SHA-256 and base64 are oracles (hashlib / base64 on both sides)', 'ECDSA host keys and the RSA / DSS / ECDSA certificate types are not in the specification yet']
+    chk.assumptions += ['MD5, SHA-1, SHA-256 and base64 are oracles (hashlib / base64 on both sides)', 'the RSA / DSS / ECDSA certificate types are not in the specification yet']
 
 
 def cert_cmd(rng):
